@@ -304,6 +304,11 @@ func c20(x *ctx) {
 		{"extends-dir-keywords", gen.CfgClass{Frame: "Xfr", Class: "Zzq", Extends: []string{"Builtin::Dir"}, InstanceMethods: methods, ClassMethods: []gen.CfgMethod{
 			{Name: "glob", Arguments: []gen.CfgArg{{Type: []string{"String"}}, {Key: "base:", Type: []string{"Int"}}}, ReturnType: ret("Int")},
 			{Name: "chdir", Arguments: []gen.CfgArg{{Type: []string{"Int"}}}, ReturnType: ret("Int")}}}},
+		// conditional-return methods whose union parameter has more / fewer alternatives than the return type
+		{"conditional-returns", gen.CfgClass{Frame: "Xfr", Class: "Zzq", ClassMethods: cmethods, InstanceMethods: append(append([]gen.CfgMethod{}, methods...),
+			gen.CfgMethod{Name: "pick", Arguments: []gen.CfgArg{{Type: []string{"Int", "String", "Symbol"}}}, ReturnType: gen.CfgRet{Type: []string{"Int", "String"}, IsConditional: true}},
+			gen.CfgMethod{Name: "pack", Arguments: []gen.CfgArg{{Type: []string{"Int", "String"}}, {Type: []string{"Float"}}}, ReturnType: gen.CfgRet{Type: []string{"Int", "String", "Symbol", "Float"}, IsConditional: true}},
+			gen.CfgMethod{Name: "pock", Arguments: []gen.CfgArg{}, ReturnType: gen.CfgRet{Type: []string{"Int", "String"}, IsConditional: true}})}},
 		{"extends-test-keywords", gen.CfgClass{Frame: "Builtin", Class: "Zzq", Extends: []string{"Test"}, InstanceMethods: methods, ClassMethods: []gen.CfgMethod{
 			{Name: "keyword_json_test", Arguments: []gen.CfgArg{{Key: "name:", Type: []string{"String"}}}, ReturnType: ret("String")}}}},
 	}
